@@ -31,7 +31,7 @@ ALL_HASHES = ("bcrypt,bcrypt_a,bcrypt_x,bcrypt_y,bigcrypt,bsdicrypt,descrypt,"
               "gost_yescrypt,md5crypt,nt,scrypt,sha1crypt,sha256crypt,"
               "sha512crypt,sunmd5,yescrypt").split(",")
 
-WRAPS = "malloc,calloc,posix_memalign,aligned_alloc,realloc,free,mmap,munmap,arc4random_buf".split(",")
+WRAPS = "malloc,calloc,posix_memalign,aligned_alloc,realloc,free,mmap,munmap,arc4random_buf,explicit_bzero".split(",")
 
 FLAVOURS = {
     # name: (cc, cflags, ldflags)
